@@ -119,6 +119,17 @@ pub fn keygen_sim<V: Variant>(
     handle: Option<Rc<Handle>>,
     ambient_seed: Option<u64>,
 ) -> (Result<(V::Sk, V::Pk), Unwind>, KeygenTrace) {
+    keygen_sim_route::<V>(seed, handle, ambient_seed, 0)
+}
+
+/// route 0: `keygen(seed)`; route 1: `SecretKey::generate_from_seed(seed)` followed by
+/// `PublicKey::from_secret_key` (the two calls `keygen` is documented to consist of)
+pub fn keygen_sim_route<V: Variant>(
+    seed: [u8; 32],
+    handle: Option<Rc<Handle>>,
+    ambient_seed: Option<u64>,
+    route: u8,
+) -> (Result<(V::Sk, V::Pk), Unwind>, KeygenTrace) {
     let shared = Shared::new();
     {
         let mut s = shared.borrow_mut();
@@ -136,7 +147,15 @@ pub fn keygen_sim<V: Variant>(
             Some(s) => inst.with_stream(s.clone()),
             None => inst,
         };
-        guarded(|| V::keygen(seed))
+        guarded(|| {
+            if route == 0 {
+                V::keygen(seed)
+            } else {
+                let sk = V::sk_from_seed(seed);
+                let pk = V::pk_from_sk(&sk);
+                (sk, pk)
+            }
+        })
     };
     let s = shared.borrow();
     let tr = KeygenTrace {
